@@ -56,15 +56,27 @@ let () = iter_lines (fun line ->
     while !continue_ do
       match step hash !s0 O with Some s' -> s0 := s' | None -> continue_ := false
     done;
+    (* after the prefill the tables are re-based on arrays (same functions, O(1) reads): only speed *)
+    let compact (t : ctab) : ctab =
+      let n = int_of_z (cbcount t) + 16 in
+      let ca = Array.init n (fun i -> t.cctrl (z_of_int i)) in
+      let va = Array.init n (fun i -> t.cvals (z_of_int i)) in
+      let oa = Array.init n (fun i -> t.cown (z_of_int i)) in
+      let inr p = match p with Z0 -> Some 0 | Zpos _ -> let i = int_of_z p in if i < n then Some i else None | Zneg _ -> None in
+      { t with cctrl = (fun p -> match inr p with Some i -> ca.(i) | None -> t.cctrl p);
+               cvals = (fun p -> match inr p with Some i -> va.(i) | None -> t.cvals p);
+               cown = (fun p -> match inr p with Some i -> oa.(i) | None -> t.cown p) } in
+    s0 := { !s0 with tabs = List.map compact !s0.tabs };
     let nt = List.length client in
     let tids = List.init nt (fun i -> nat_of_int (i + 1)) in
     let seen = KH.create 65536 in
     let stack = Stack.create () in
     let outs = Hashtbl.create 64 in
     let ntrans = ref 0 and trunc = ref false and stuck = ref 0 in
-    KH.replace seen (Obj.repr (canon !s0)) ();
+    let keyof s = Obj.repr (Digest.string (Marshal.to_string (canon s) [Marshal.No_sharing])) in
+    KH.replace seen (keyof !s0) ();
     Stack.push !s0 stack;
-    let max_states = 120000 in
+    let max_states = 60000 in
     while not (Stack.is_empty stack) do
       let s = Stack.pop stack in
       let enabled = ref false in
@@ -73,7 +85,7 @@ let () = iter_lines (fun line ->
         | None -> ()
         | Some s' ->
           incr ntrans; enabled := true;
-          let key = Obj.repr (canon s') in
+          let key = keyof s' in
           if not (KH.mem seen key) then begin
             if KH.length seen >= max_states then trunc := true
             else begin KH.replace seen key (); Stack.push s' stack end
